@@ -14,6 +14,7 @@ import (
 	"sort"
 
 	"qeepverif/internal/beh"
+	"qeepverif/internal/bind"
 	"qeepverif/internal/run"
 )
 
@@ -69,6 +70,7 @@ func main() {
 		fmt.Fprintf(os.Stderr, "unknown property %q (have %v)\n", id, ids)
 		os.Exit(2)
 	}
+	bind.Scope = id
 	if *replay != "" {
 		os.Exit(doReplay(id, *replay))
 	}
